@@ -13,6 +13,7 @@ import Driver.Race
 import Driver.Encode
 import Driver.Sim
 import Driver.Modes
+import Driver.Text
 /-
 Line-protocol driver: one case per line, first token selects the engine, one reply line per case.
 Stateless across lines (a line is a complete case = a replay).  Core-only imports so that it links.
@@ -43,6 +44,7 @@ def dispatch (env : Env) (eng rest : String) : String :=
   | "acs" => Encode.runAcs env rest
   | "sim" => Sim.run env rest
   | "modes" => Modes.run env rest
+  | "text" => Text.run env rest
   | _ => "bad-engine"
 
 def handle (env : Env) (line : String) : String :=
